@@ -47,7 +47,6 @@ type bres struct {
 // batchOps are the operations a worker can run on a case.
 var batchOps = map[string]func(cs bcase) map[string]any{}
 
-
 // crashSite extracts the call-site signature: the innermost three distinct cuelang.org/go frames
 // (outside the harness) of a crash dump, line numbers stripped.
 func crashSite(dump string) string {
